@@ -502,3 +502,37 @@ fn substitute_callee(_callee: &mut Callee, _type_params: &[TypeParamId], _type_a
     // Callee rewriting happens in the separate rewrite_call_sites pass
     // after all instances are known. No per-function substitution needed.
 }
+
+/// Read-only access to the private helpers of this module for the verification harness
+/// (compiled only with `--cfg vbxq_aelys_lang_verif`).
+#[cfg(vbxq_aelys_lang_verif)]
+pub mod verif {
+    use super::*;
+
+    /// `type_to_string`: the text used as instance key and in mangled names.
+    pub fn type_key(ty: &AirType) -> String {
+        type_to_string(ty)
+    }
+
+    /// `substitute_type` on a copy.
+    pub fn substitute(ty: &AirType, type_params: &[TypeParamId], type_args: &[AirType]) -> AirType {
+        let mut t = ty.clone();
+        substitute_type(&mut t, type_params, type_args);
+        t
+    }
+
+    /// `infer_type_args` of a call of `generic` with `args`, made from `caller`.
+    pub fn infer(
+        generic: &AirFunction,
+        args: &[Operand],
+        caller: &AirFunction,
+    ) -> Option<Vec<AirType>> {
+        let ctx = MonoContext {
+            generic_functions: HashMap::new(),
+            requests: Vec::new(),
+            instantiated: HashMap::new(),
+            next_function_id: 0,
+        };
+        ctx.infer_type_args(generic, args, caller)
+    }
+}
